@@ -91,16 +91,15 @@ func bitField(nd data.UnixFSData) (bitfield.Bitfield, error) {
 	if fanout > maximumHamtWidth {
 		return nil, fmt.Errorf("hamt witdh (%d) exceed maximum allowed (%d)", fanout, maximumHamtWidth)
 	}
-	bf, err := bitfield.NewBitfield(fanout)
-	if err != nil {
-		return nil, err
-	}
 	// the reference implementation omits the Data field when the bitfield is
 	// empty (a shard with no children), treat that as all zeroes
+	var bits []byte
 	if nd.FieldData().Exists() {
-		bf.SetBytes(nd.FieldData().Must().Bytes())
+		bits = nd.FieldData().Must().Bytes()
 	}
-	return bf, nil
+	// FromBytes returns an error, rather than panicking like SetBytes, when
+	// the stored bitfield is longer than the fanout allows
+	return bitfield.FromBytes(fanout, bits)
 }
 
 func checkLogTwo(v int) error {
